@@ -604,13 +604,7 @@ package tchannel
 // (Relayer.handleCallReq / handleNonCallReq: timers, dials, goroutines);
 // relayed(r) counts the frames handed to the relayer.
 //@ ghostfield relayed
-//@ func (r *Relayer) Relay(f *Frame) (shouldRelease bool, err error)
-//@   trusted
-//@   modifies all
-//@   ensures relayed(r) == old(relayed(r)) + 1
-// (every error return leaves the frame with the caller)
-//@   ensures err != nil ==> own(f) == 1
-//@   property C20
+// (Relayer.Relay: verified contract in verif_contracts_relay.go)
 
 // The non-relay dispatcher: error frames go to handleError (E5, above).
 // DispatchOK: what the other handlers it dispatches to need of the connection.
